@@ -142,6 +142,8 @@ pub fn generate(prop: &str, tier: Tier, rng: &mut Rng, index: u64) -> Scenario {
         // Directed, by position in the batch: the two giants.
         "C19" if index % (if big { 2_000_000 } else { 10_000_000 }) == 3 => Scenario::Supports(Supports::generate_giant(rng, 0)),
         "C19" if index % (if big { 2_000_000 } else { 10_000_000 }) == 4 => Scenario::Supports(Supports::generate_giant(rng, 1)),
+        // Clustered data (short and long select superblocks interleaved): at fixed positions of every batch.
+        "C19" if index % 500 == 5 => Scenario::Supports(Supports::generate_clustered(rng)),
         "C19" => {
             match rng.below(4) {
                 0 | 1 => Scenario::Supports(Supports::generate(rng, if big { 140_000 } else { 20_000 })),
